@@ -6,7 +6,8 @@ import ast
 import os
 
 from pyvc import values as V
-from pyvc.contract import contract, Call
+from pyvc.contract import contract, Call, LoopSpec
+from pyvc.sx import And as sx_and
 from contracts.hostile import Safety, DOCUMENTED
 
 M_FAMILY = {'struct.error': None, 'IndexError': None, 'KeyError': None, 'UnicodeDecodeError': None, 'ValueError': None}
@@ -43,8 +44,41 @@ def discover():
 CLASSES = discover()
 
 
+class LVDMapsLoop(LoopSpec):
+    """the partition map loop of UDFLogicalVolumeDescriptor.parse, inductively: from ANY offset >= 0 into the 72 map bytes and any
+    remaining table length, one iteration raises nothing outside the allowed classes and leaves offset >= 0; the loop runs at
+    most num_partition_maps times (a range)"""
+
+    def havoc(self, it, frame):
+        ctx = it.ctx
+        frame.locals['offset'] = ctx.fresh_int('map_offset')
+        frame.locals['map_table_length_left'] = ctx.fresh_int('map_left')
+        frame.locals['__k'] = ctx.fresh_int('maps_done')
+        frame.locals['self'].fields['partition_maps'] = []
+
+    def invariant(self, it, frame, phase):
+        if phase == 'init':
+            return {'offset-starts-at-zero': frame.locals['offset'] >= 0}
+        n = len(V.items_of(frame.locals['partition_maps']))
+        return {'offset-inside-the-map-bytes': sx_and(frame.locals['offset'] >= 0, frame.locals['offset'] <= n), 'count-nonneg': frame.locals['__k'] >= 0}
+
+    def for_enter(self, it, frame, st):
+        n = frame.locals['num_partition_maps']
+        if it.truth(frame.locals['__k'] < n):
+            frame.locals[st.target.id] = frame.locals['__k']
+            return True
+        return False
+
+    def for_advance(self, it, frame, st):
+        frame.locals['__k'] = frame.locals['__k'] + 1
+
+    def decreases(self, it, frame):
+        return frame.locals['num_partition_maps'] - frame.locals['__k']
+
+
 @contract
 class AutoParse(Safety):
+    loops = {('pycdlib.udf.UDFLogicalVolumeDescriptor.parse', 0): LVDMapsLoop()}
     """<class>.parse(arbitrary bytes of length n): only documented exceptions or the malformed-input family escape"""
     target = 'pycdlib.udf.UDFTag.parse'
     cls = 'udf.UDFTag'
